@@ -404,6 +404,67 @@ func c09Concurrent(k, clients, per int) *Scenario {
 	return sc
 }
 
+// c09DrainWindow: a target starts failing its probes while a pause is draining it (requests in flight keep the
+// drain open over a probe tick); after the resume it keeps failing and must be taken out of the rotation.
+func c09DrainWindow(recover bool) *Scenario {
+	sc := &Scenario{Name: fmt.Sprintf("C09 probe outcome flips during a drain, recover=%v", recover), Horizon: 60 * time.Second}
+	const host = "a.example.com"
+	var late []*ReqObs
+	sc.Run = func(w *World) {
+		late = nil
+		if recover {
+			// failing before the drain, recovering during it: must be used again afterwards
+			w.AddTarget("ta:80", pOK(), p500(), pOK())
+		} else {
+			w.AddTarget("ta:80", pOK(), pOK(), p500())
+		}
+		w.AddTarget("tb:80")
+		t0 := w.Now()
+		if r := w.Deploy(deployArgs("s1", []string{"ta:80", "tb:80"}, []string{host}, nil)); r.Err != nil {
+			w.Note("setup: %v", r.Err)
+			return
+		}
+		time.Sleep(t0 + vI + 300*time.Millisecond - w.Now())
+		// one slow request per target keeps the drain open across the probe tick at 2 intervals
+		for i := 0; i < 2; i++ {
+			i := i
+			vsched.GoTagged("client", func() { w.Do(ReqSpec{ID: fmt.Sprintf("slow%d", i), Host: host, Plan: "delay=1200ms"}) })
+		}
+		time.Sleep(200 * time.Millisecond)
+		w.S.SetWindow(true)
+		w.Pause("s1", 3*vD, vMaxPause) // returns when the slow requests are done (at about 2.5 intervals)
+		w.Resume("s1")
+		w.S.SetWindow(false)
+		// after the next two probe ticks the rotation must reflect the probes
+		time.Sleep(t0 + 4*vI + 300*time.Millisecond - w.Now())
+		for i := 0; i < 4; i++ {
+			late = append(late, w.Do(ReqSpec{ID: fmt.Sprintf("late%d", i), Host: host}))
+		}
+	}
+	sc.Check = func(w *World) []Violation {
+		var vs []Violation
+		for _, n := range w.Notes {
+			vs = append(vs, Violation{"C09", "setup", n})
+		}
+		if len(vs) > 0 || len(late) != 4 || w.HadStall() {
+			return vs
+		}
+		counts := map[string]int{}
+		for _, r := range late {
+			counts[r.ServedBy()]++
+		}
+		if recover {
+			if counts["ta:80"] != 2 || counts["tb:80"] != 2 {
+				vs = append(vs, Violation{"C09", "recovered-target-not-used-again", fmt.Sprintf("ta recovered during the drain and has passed its probes since; 4 requests were served %v", counts)})
+			}
+		} else if counts["ta:80"] != 0 || counts["tb:80"] != 4 {
+			vs = append(vs, Violation{"C09", "request-sent-to-failing-target", fmt.Sprintf("ta has failed every probe since the drain; 4 requests were served %v", counts)})
+		}
+		return vs
+	}
+	return sc
+}
+
 func checkC09(t *testing.T, job *Job, res *Result) {
 	tier := job.Tier
 	if job.Replay != nil {
@@ -412,6 +473,11 @@ func checkC09(t *testing.T, job *Job, res *Result) {
 	var scs []*Scenario
 	for _, c := range c09Configs(tier) {
 		scs = append(scs, c09Scenario(c))
+	}
+	for _, rec := range []bool{false, true} {
+		sc := c09DrainWindow(rec)
+		sc.Bounds = &Bounds{D: 1, S: 0}
+		scs = append(scs, sc)
 	}
 	for _, x := range [][3]int{{2, 2, 1}, {2, 2, 2}, {3, 2, 2}, {3, 3, 1}} {
 		sc := c09Concurrent(x[0], x[1], x[2])
@@ -422,6 +488,6 @@ func checkC09(t *testing.T, job *Job, res *Result) {
 	if tier == "thorough" {
 		b = Bounds{D: 2, S: 1, Total: 2}
 	}
-	res.Rule = "configurations = 1..3 targets x per-target post-deploy probe script of length 4 over {ok, fail} (failure kinds refused/500/slow) x client threads issuing bursts of 2k+1 requests after every probe tick; per configuration every schedule within the deviation bounds; oracle: healthy set from probe results, membership, 503 when empty, strict rotation per run, probe cadence; plus 2-3 clients issuing requests concurrently at 2-3 steadily healthy targets (<=2 deviations): per-target counts within floor/ceil of n/k"
+	res.Rule = "configurations = 1..3 targets x per-target post-deploy probe script of length 4 over {ok, fail} (failure kinds refused/500/slow) x client threads issuing bursts of 2k+1 requests after every probe tick; per configuration every schedule within the deviation bounds; oracle: healthy set from probe results, membership, 503 when empty, strict rotation per run, probe cadence; plus 2-3 clients issuing requests concurrently at 2-3 steadily healthy targets (<=2 deviations): per-target counts within floor/ceil of n/k; plus a target whose probe outcome changes while a pause is draining it (requests in flight keep the drain open over a probe tick): after the resume the rotation follows the probes"
 	runS(t, job, res, "C09", scs, b, 5000)
 }
